@@ -91,6 +91,13 @@ def extendData (data : Option Span) (startPos boxSize : Nat) : P (Option Span) :
       pure (some ⟨d.offset, l⟩)
     else pure (some d)
 
+/-- `cumulative_mdat_box_size` (lib.rs: "if let (Some(size), Ok(None)) = (config.cumulative_mdat_box_size, header.box_data_size())
+    { header.overwrite_size(size) }"): the only use of the option -/
+def applyCum (cfg : Config) (header : BoxHeader) : BoxHeader :=
+  match header.dataSize, cfg.cumulativeMdatBoxSize with
+  | .ok none, some t => { header with sz := .size t }     -- overwrite_size
+  | _, _ => header
+
 /-- one iteration of the `while` body, after `fill_buf` said there is more input (lib.rs:284-386) -/
 def scanBox (cfg : Config) (st : ScanState) : P ScanState :=
   .position fun startPos => do
@@ -110,10 +117,7 @@ def scanBox (cfg : Config) (st : ScanState) : P ScanState :=
       else .fail .unsupportedFormat
   else if st.ftyp.isNone then .fail .invalidBoxLayout
   else if ty = MDAT then do
-    let header : BoxHeader :=
-      match header.dataSize, cfg.cumulativeMdatBoxSize with
-      | .ok none, some t => { header with sz := .size t }     -- overwrite_size
-      | _, _ => header
+    let header : BoxHeader := applyCum cfg header
     let n ← skipBox header
     let boxSize ← addU64 "skip_box + encoded_len" n header.encodedLen
     match st.data with
